@@ -915,6 +915,44 @@ def renumber_arrays(prog):
     return [st(s) for s in prog]
 
 
+def reg_defs_uses(s, defs, uses):
+    """register futures assigned / used as an in-subroutine operand anywhere inside s"""
+    if s[0] == "measreg":
+        defs.add(s[3])
+    if s[0] == "regadd":
+        uses.add(s[1])
+
+    def walk(x):
+        if isinstance(x, list):
+            if len(x) == 2 and x[0] == "reg":
+                uses.add(x[1])
+            for y in x:
+                walk(y)
+
+    walk([p for p in s[1:] if not (isinstance(p, list) and p and isinstance(p[0], list))])
+    for b in bodies(s):
+        for t in b:
+            reg_defs_uses(t, defs, uses)
+
+
+def allowed_cuts(stmts):
+    """positions i (flush after statement i) that do not separate the assignment of a register
+    future from a later use of it as an operand: M registers are handed out afresh after
+    every flush, so such a handle is only good for host reads then (documented assumption)"""
+    info = []
+    for s in stmts:
+        d, u = set(), set()
+        reg_defs_uses(s, d, u)
+        info.append((d, u))
+    ok = []
+    for i in range(len(stmts) - 1):
+        defined = set().union(*[d for d, _ in info[: i + 1]])
+        used_later = set().union(*[u for _, u in info[i + 1:]])
+        if not (defined & used_later):
+            ok.append(i)
+    return ok
+
+
 def strip_flushes(prog):
     return [s for s in prog if s[0] != "flush"]
 
